@@ -1,6 +1,7 @@
 package harness
 
 import (
+	"bytes"
 	"context"
 	"encoding/json"
 	"errors"
@@ -19,6 +20,44 @@ func init() {
 	generators["C01"] = genC01
 	generators["C07"] = genC07
 	generators["C04"] = genC04
+	generators["C02"] = genC02
+}
+
+// genC02: C01/C04 style histories with Close/reopen at arbitrary positions; at
+// each reopen the closed image is opened three ways (snapshot kept / deleted /
+// unusable).
+func genC02(seed uint64, tier string) *Plan {
+	r := simrt.NewRand(seed)
+	var p *Plan
+	if r.Chance(0.5) {
+		p = genC04(seed^0x2222, tier)
+	} else {
+		p = genC01(seed^0x2222, tier)
+		p.Cfg.GCMs = 0
+	}
+	if p.Cfg.Bits > 17 {
+		p.Cfg.Bits = 12
+	}
+	p.X["forks"] = 1
+	var out []Op
+	nre := 0
+	for _, o := range p.Ops {
+		if o.K == "reopen" {
+			continue
+		}
+		out = append(out, o)
+		if nre < 6 && r.Chance(0.12) {
+			nre++
+			out = append(out, Op{K: "reopen", A: r.Intn(5), B: r.Intn(2)})
+			if r.Chance(0.2) {
+				// reopen immediately again
+				out = append(out, Op{K: "reopen", A: r.Intn(5)})
+			}
+		}
+	}
+	out = append(out, Op{K: "reopen", A: r.Intn(5), B: 1})
+	p.Ops = out
+	return p
 }
 
 // genC04: histories on the multihash primary with small files and GC cycles of
@@ -229,12 +268,83 @@ func (d *Driver) Reopen(op *Op) {
 			return
 		}
 	}
+	if d.P.x("forks", 0) == 1 {
+		d.reopenForks()
+		if d.Viol != nil {
+			return
+		}
+	}
 	d.damageSnapshot(op.A)
 	if err := d.Open(); err != nil {
 		d.fail("reopen/open-error", "reopen (snapshot mode %d) failed: %v", op.A, err)
 		return
 	}
 	d.Probes["reopen"]++
+}
+
+// reopenForks opens the closed store three ways (snapshot kept / deleted /
+// unusable) from the same image and demands identical contents and equivalent
+// bucket tables. The file system is restored to the image afterwards.
+func (d *Driver) reopenForks() {
+	fs := fsOf()
+	img := fs.Snapshot()
+	var ref map[uint32][]byte
+	refMode := -1
+	modes := []int{0, 1, 2 + int(img.Hash()%3)}
+	for _, mode := range modes {
+		fs.Restore(img)
+		d.damageSnapshot(mode)
+		if err := d.Open(); err != nil {
+			d.fail("reopen/fork-open-error", "reopen with snapshot mode %d failed: %v", mode, err)
+			return
+		}
+		d.ReadBack(fmt.Sprintf("reopen/fork%d", mode))
+		if d.Viol != nil {
+			return
+		}
+		r := d.Call(&Op{K: "iter"})
+		d.CheckSeq(&Op{K: "iter"}, r)
+		if d.Viol != nil {
+			d.Viol.Class = fmt.Sprintf("reopen/fork%d/", mode) + d.Viol.Class
+			return
+		}
+		tb := d.St.Index().VerifBuckets()
+		live := make([]uint64, len(tb))
+		for i, p := range tb {
+			live[i] = uint64(p)
+		}
+		lv := Fsck(fsckInput{Files: fs.Files(), Primary: d.Cfg.Primary, Live: live})
+		if len(lv.Errs) > 0 {
+			d.fail("reopen/fork-table", "bucket table after reopen with snapshot mode %d is inconsistent: %s", mode, strings.Join(lv.Errs, "; "))
+			return
+		}
+		lists := map[uint32][]byte{}
+		for b, raw := range lv.Lists {
+			if len(raw) > 0 {
+				lists[b] = append([]byte(nil), raw...)
+			}
+		}
+		if ref == nil {
+			ref, refMode = lists, mode
+		} else {
+			if len(lists) != len(ref) {
+				d.fail("reopen/forks-differ", "snapshot modes %d and %d reconstruct different bucket tables (%d vs %d non-empty buckets)", refMode, mode, len(ref), len(lists))
+				return
+			}
+			for b, raw := range lists {
+				if !bytes.Equal(ref[b], raw) {
+					d.fail("reopen/forks-differ", "snapshot modes %d and %d resolve bucket %d to different record lists", refMode, mode, b)
+					return
+				}
+			}
+		}
+		if err := d.St.Close(); err != nil {
+			d.fail("reopen/fork-close-error", "Close after fork reopen returned %v", err)
+			return
+		}
+		d.Probes["reopen-fork"]++
+	}
+	fs.Restore(img)
 }
 
 func (d *Driver) damageSnapshot(mode int) {
